@@ -68,12 +68,18 @@ CHECKS["C05"] = (MC,
     "scripts, strategies are sampled from all 281; symmetry events carry both role orders; generic JSON is exhaustive over "
     "all triples of short lists/objects/strings of the bounded universe.", MERGE_NOTE, "DESIGN.md §5 C05")
 CHECKS["C09"] = (MC,
+    "TLC model checking of DecisionModel.tla (every way of cutting a well-formed group diff of a bounded sub-document into decisions: "
+    "SplitInvariance, Ordered, SchemaAll; every case replayed into nbdime's apply_decisions) + "
     "TLC trace validation (MergeTrace.tla) with the specification's own ApplyDecisions (MergeFormat.tla): AppliesToMerged, "
     "AllLocalIsLocal, AllRemoteIsRemote, OrderedOK, SamePathContiguous, DecisionSchemaOK (+ published schema via jsonschema), "
     "DecisionPlainJSON",
     "The decision format has an explicit TLA+ semantics independent of nbdime's applier. For every merge event TLC re-applies "
     "the decisions to base and compares with the merged notebook; under 'mergetool' it relabels every decision to local / "
-    "remote and compares with that notebook; ordering, contiguity, schema and plain-JSON clauses are evaluated on every list.",
+    "remote and compares with that notebook; ordering, contiguity, schema and plain-JSON clauses are evaluated on every list. "
+    "At design level DecisionModel.tla cuts every well-formed diff of a bounded universe (strings of lines, lists of containers, objects) "
+    "into decisions in every style the format allows (one entry per decision from either side, either / custom / local_then_remote, "
+    "line- and item-level paths, clear / remove / take_max / clear_all / base) and TLC checks that the reference applier gives base "
+    "patched with the uncut diff; nbdime's applier gives the same document on every case (spec -> code).",
     MERGE_NOTE, "DESIGN.md §5 C09")
 
 CHECKS["C06"] = (MC,
@@ -199,7 +205,7 @@ CHECKS["C13"] = ("exploration",
 
 CHECKS["C15"] = ("translation_validation",
     "execution of the real TypeScript patch / applyDecisions (Node 22 type-stripping loader) on every TLC-generated well-formed "
-    "(doc, diff) of DiffModel.tla and on diffs / mergetool decision lists the Python side produces; TLC trace validation "
+    "(doc, diff) of DiffModel.tla, on the TLC-generated decision lists of DecisionModel.tla (model checked: SplitInvariance) and on diffs / mergetool decision lists the Python side produces; TLC trace validation "
     "(DiffTrace.tla TsPatchIsPyPatch / TsPatchIsSpecPatch / TsAccepts, MergeTrace.tla TsApplied / TsAccepts)",
     "Each (base, diff) or (base, decisions) pair is one program run through both implementations (and through the specification's "
     "Patch for the TLC-generated ones); TLC compares the resulting documents. Programs include strings with every separator of "
